@@ -14,6 +14,26 @@ def harnesses(tier):
     for t, n in TYPES[:2]:
         hs.append(Harness('h_mul_%s' % t, 'safeint', unwind=2, backend='kissat', timeout=300, bounds='full %d-bit operands' % n,
                           claims='SafeInt<%s> *: returns iff exact product representable, value exact' % t, assumptions=A, known=['mul_min_product']))
+    # wide multiplication: one operand symbolic (full width), the other an enumerated constant (one harness instance per constant and
+    # operand order); symbolic x symbolic at 32/64 bit finishes on no back end (DESIGN.md 9.7)
+    # measured: negative constants (signed types) and 3037000500 (64 bit) end in the 300 s cap on SAT and on cvc5 --solve-bv-as-int=sum:
+    # they are attempted in the thorough tier only (NOT-DECIDED there, never pass).  Unsigned types take non-negative constants < 2^63 only
+    # (the 128-bit reference product of the harness must not overflow).
+    C32 = ['0', '1', '2', '3', '46341', '65536', '2147483647', '(-2147483647-1)']
+    C64 = ['0', '1', '2', '4294967296LL', '9223372036854775807LL', '(-9223372036854775807LL-1)']
+    X32 = ['7', '10', '46340', '65535', '1073741824', '715827883']
+    X64 = ['3', '10', '2147483648LL', '4611686018427387904LL', '3074457345618258603LL', '3037000500LL']
+    NEG32 = ['(-1)', '(-2)', '(-3)', '(-46341)', '(-65536)', '(-1073741824)']
+    NEG64 = ['(-1)', '(-3)', '(-4294967296LL)', '(-3037000500LL)', '(-4611686018427387904LL)']
+    for t, n in [('i32', 32), ('u32', 32), ('i64', 64), ('usz', 64)]:
+        cs = (C32 if n == 32 else C64) + ([] if tier == 'quick' else (X32 if n == 32 else X64) + ((NEG32 if n == 32 else NEG64) if t[0] == 'i' else []))
+        for c in cs:
+            for sw in (0, 1):
+                h = Harness('h_mulc_%s' % t, 'safeint', unwind=2, timeout=300, defines=['MULC=' + c, 'MULC_SWAP=%d' % sw], tv_cases=0,
+                            bounds='one operand any %d-bit value, the other the constant %s (%s operand)' % (n, c, 'left' if sw else 'right'),
+                            claims='SafeInt<%s> * with constant %s: returns iff exact product representable, value exact, only OverflowError' % (t, c),
+                            assumptions=A + ['the constant operand is enumerated, not symbolic'], known=['mul_min_product'])
+                h.label = 'h_mulc_%s[%s,%s]' % (t, c.strip('()').replace('LL', ''), 'c*x' if sw else 'x*c'); hs.append(h)
     pairs = [(t, u) for t, _ in TYPES for u in SRC]
     if tier == 'quick': pairs = [p for i, p in enumerate(pairs) if i % 3 == 0 or p[0] in ('i32', 'usz')]
     for t, u in pairs:
